@@ -40,9 +40,24 @@ impl ElfSectionsTag {
     /// Get an iterator over the ELF sections.
     #[must_use]
     pub const fn sections(&self) -> ElfSectionIter {
-        let string_section_offset = (self.shndx * self.entry_size) as isize;
-        let string_section_ptr =
-            unsafe { self.sections.as_ptr().offset(string_section_offset) as *const _ };
+        // All section headers must be covered by the tag.
+        let total_size =
+            match (self.number_of_sections as usize).checked_mul(self.entry_size as usize) {
+                Some(size) => size,
+                None => panic!("The section headers must be covered by the tag"),
+            };
+        assert!(
+            total_size <= self.sections.len(),
+            "The section headers must be covered by the tag"
+        );
+        // The string table is one of the section headers. An invalid index is
+        // reported once a section name is requested.
+        let string_section_ptr = if self.shndx < self.number_of_sections {
+            let string_section_offset = self.shndx as usize * self.entry_size as usize;
+            unsafe { self.sections.as_ptr().add(string_section_offset) }
+        } else {
+            core::ptr::null()
+        };
         ElfSectionIter {
             current_section: self.sections.as_ptr(),
             remaining_sections: self.number_of_sections,
@@ -323,6 +338,10 @@ impl ElfSection<'_> {
     }
 
     unsafe fn string_table(&self) -> *const u8 {
+        assert!(
+            !self.string_section.is_null(),
+            "The index of the string table must refer to a section header of the tag"
+        );
         let addr = match self.entry_size {
             40 => (*(self.string_section as *const ElfSectionInner32)).addr as usize,
             64 => (*(self.string_section as *const ElfSectionInner64)).addr as usize,
